@@ -685,7 +685,10 @@ class VMF:
         """Add an entity to the map.
 
         The entity should have been created with this VMF as a parent.
+        Adding an entity which is already in the map does nothing.
         """
+        if item in self.by_class.get(item['classname', ''].casefold(), ()):
+            return  # Already present, a second list entry would export it twice.
         self.entities.append(item)
         self.by_class[item['classname', ''].casefold()].add(item)
         self.by_target[item['targetname', ''].casefold() or None].add(item)
@@ -721,18 +724,8 @@ class VMF:
 
     def add_ents(self, ents: Iterable['Entity']) -> None:
         """Add multiple entities to the map."""
-        ents = list(ents)
-        self.entities.extend(ents)
         for item in ents:
-            self.by_class[item['classname'].casefold()].add(item)
-            self.by_target[item['targetname', ''].casefold() or None].add(item)
-            if 'nodeid' in item:
-                try:
-                    node_id = int(item['nodeid'])
-                except (TypeError, ValueError):
-                    pass
-                else:
-                    item['nodeid'] = str(self.node_id.get_id(node_id))
+            self.add_ent(item)
 
     def create_ent(self, classname: str, **kargs: ValidKVs) -> 'Entity':
         """Convenience method to allow creating point entities.
